@@ -204,13 +204,25 @@ def schedules(n0, n1, bound):
     return out
 
 
+def process_settings():
+    import locale, decimal
+    return {'recursionlimit': sys.getrecursionlimit(), 'cwd': os.getcwd(), 'locale': list(locale.getlocale()), 'decimal_precision': decimal.getcontext().prec}
+
+
 def part_threads(sh, res):
     (i0, e0), (i1, e1) = sh['pair']
     n0, n1 = sh['points']
     lo, hi = sh['lo'], sh['hi']
     for bits in schedules(n0, n1, sh['bound'])[lo:hi]:
         slot = [None, None]
+        before = process_settings()
         trace, pts = sched.run_schedule([threaded_body(i0, slot), threaded_body(i1, slot)], bits)
+        after = process_settings()
+        if after != before:
+            # a query that saves / changes / restores a process-wide setting is not re-entrant: an interleaving can leave the setting changed for everything that runs later
+            res.violation('process-wide-setting-left-changed', {'kind': 'threads', 'queries': [i0[0], i1[0]], 'instances': [i0, i1], 'schedule': trace}, before, after)
+            sys.setrecursionlimit(before['recursionlimit'])
+            os.chdir(before['cwd'])
         res.evaluations += 1
         res.traces += 1
         res.transitions += len(trace)
